@@ -132,6 +132,38 @@ C08_SCENARIO(queueSize)
   if (seen == static_cast<size_t>(-1)) printf("x\n");
 }
 
+// F-4: quit() stores quit_ and then calls wakeup() on the loop; the owner may leave loop() on the strength of the flag and
+// destroy the EventLoop (close(wakeupFd_)) with nothing ordering the caller's wakeup() before that.  The loop thread is
+// inside a long callback when quit() arrives, so it leaves loop() without ever polling the wake-up descriptor.
+namespace
+{
+EventLoop* g_f4loop = NULL;
+CountDownLatch* g_f4ready = NULL;
+void f4busy() { ::usleep(90 * 1000); }
+void* f4thread(void*)
+{
+  EventLoop loop;
+  loop.runAfter(0.005, f4busy);
+  g_f4loop = &loop;
+  g_f4ready->countDown();
+  loop.loop();
+  return NULL;                   // ~EventLoop here, on the owner's thread, as EventLoopThread::threadFunc does
+}
+}  // namespace
+
+C08_SCENARIO(quit_while_loop_busy)
+{
+  CountDownLatch ready(1);
+  g_f4ready = &ready;
+  pthread_t th;
+  pthread_create(&th, NULL, &f4thread, NULL);
+  ready.wait();
+  sleep_ms(40);                  // the loop thread is inside f4busy
+  g_f4loop->quit();              // any-thread operation; afterwards this thread only sleeps
+  sleep_ms(150);
+  pthread_join(th, NULL);
+}
+
 // F-4 / F-11: ~EventLoopThread reads loop_ without the mutex while threadFunc stores NULL under it
 C08_SCENARIO(eventloopthread_dtor)
 {
